@@ -39,13 +39,12 @@ def main():
     config = strip_tests(read("src/config.rs"))
     defs = []
     missing = []
+    fallback = json.load(open(os.path.join(os.path.dirname(os.path.abspath(__file__)), "extract_fallback.json")))
 
     # When the source no longer has the shape a pattern looks for (a constant was introduced, a literal moved),
     # the value cannot be re-read. The committed value of the pinned tree is used instead and the name is
     # reported (evidence: constants_not_located); the correspondence run still exercises every place the
     # constant matters, so a changed value shows up there. A located constant with a new value regenerates the model.
-    fallback = json.load(open(os.path.join(os.path.dirname(os.path.abspath(__file__)), "extract_fallback.json")))
-
     def emit(name, ty, val):
         if val is None:
             missing.append(name)
@@ -80,7 +79,27 @@ def main():
     flags = re.findall(r'"([^"]+)"', m.group(1)) if m else None
     emit("compatFlagSpellings", "List String", "[" + ", ".join(lean_str(e) for e in flags) + "]" if flags is not None else None)
 
-    opts = re.findall(r'^\s{12}"(\w+)"\s*=>\s*\{', config, re.M)
+    # option keys: the string-literal match arms inside fn set_option (brace-matched body). A list that is only a
+    # part of the committed one means some arms are no longer written as literals (constants, helper functions):
+    # treated as not located. A key that disappears for real shows up in the correspondence (the option is ignored).
+    opts = None
+    mf = re.search(r"fn\s+set_option\b", config)
+    if mf:
+        i = config.find("{", mf.end())
+        depth, j = 0, i
+        while j < len(config):
+            if config[j] == "{":
+                depth += 1
+            elif config[j] == "}":
+                depth -= 1
+                if depth == 0:
+                    break
+            j += 1
+        body = config[i:j]
+        opts = re.findall(r'"(\w+)"\s*(?:\|\s*"\w+"\s*)*=>', body)
+        committed = re.findall(r'"(\w+)"', fallback["optionKeys"])
+        if not opts or (set(opts) < set(committed)):
+            opts = None
     emit("optionKeys", "List String", "[" + ", ".join(lean_str(e) for e in opts) + "]" if opts else None)
     m = re.search(r'ignore_class_notfound_regexp:\s*vec!\["([^"]*)"\.to_string\(\)\]', config)
     if not m:
